@@ -27,6 +27,8 @@ FS = [
     '!', '=', '\\', '\\\n', '\\\r\n', '\\\r', '\n', '\r', '\r\n', 'x', ' ', '\\N{DASH}', '\\N{', '#',
     '(', ')', '[', ']', ':=', 'lambda', 'def ', 'class ', '\f', '\x85', '\xa0', '\x1c', '\v', '>10',
     '.2f', 'a', ',', '*', 'yield', ';', 'import ', '\t', '\\{', '\\}', '\u2028', '!=', '==',
+    '\\N{LATIN CAPITAL LETTER A WITH RING ABOVE AND ACUTE', '\\N{GREEK SMALL LETTER ALPHA WITH PSILI AND VARIA AND YPOGEGRAMMENI}', '\\N{a b c d e f g h i j k l m n o p q r s t u v w x y z 0 1 2 3 4 5',
+    "br'abc\\\n", 'Rb"x\\\n', "rb'\\\r\n", 'bR"""', "fr'", 'Rf"',
 ]
 
 
